@@ -3,7 +3,9 @@
                                            | err | panic | fuel
             streams: <utf8 name hex>:<content hex>;…   (the model reads these; the cfb file of
             arg 0 is what the Rust side opens and checks against them)
-            dec: "id" (byte b -> scalar b) or 256 x 4 hex digits (single-byte code page table)
+            dec: "id" (byte b -> scalar b), 256 x 4 hex digits (single-byte code page table) or
+                 "map:<bytes hex>=<utf8 hex of the decoded text>,…" (multi-byte code pages: the
+                 decoder restricted to the byte strings that occur in the case)
    vba_enc  <project description> <dec> -> <dir stream hex>|<valid 0/1>|<known or ->|<expected or ->
             expected: R<name>:<desc>:<path>,…|D<name>:<stream>:<offset>,…
    description: sections separated by '|', fields by ' '; byte strings in hex, '-' = empty,
@@ -24,6 +26,17 @@ let opt_f (s : string) : BinNums.coq_N list option = if s = "~" then None else S
 
 let decoder (spec : string) : BinNums.coq_N -> BinNums.coq_N list -> BinNums.coq_N list =
   if spec = "id" then (fun _ l -> l)
+  else if String.length spec >= 4 && String.sub spec 0 4 = "map:" then begin
+    (* multi-byte code pages: the decoder is given extensionally on the byte strings of the
+       case (computed by the generator with the code page's codec); identity elsewhere *)
+    let tbl = Hashtbl.create 64 in
+    List.iter (fun e ->
+        match String.split_on_char '=' e with
+        | [k; v] -> Hashtbl.replace tbl k (scalars_of_hex v)
+        | _ -> failwith "bad decoder map")
+      (split_on ',' (String.sub spec 4 (String.length spec - 4)));
+    (fun _ l -> match Hashtbl.find_opt tbl (hex_of_bytes l) with Some v -> v | None -> l)
+  end
   else begin
     let tbl = Array.init 256 (fun i -> n_of_int (int_of_string ("0x" ^ String.sub spec (4 * i) 4))) in
     (fun _ l -> List.map (fun b -> tbl.(int_of_n b land 255)) l)
@@ -100,7 +113,7 @@ let run_enc (args : string list) : string =
     let decode = decoder dec in
     let p = parse_proj desc in
     let dir = encode_dir p in
-    let valid = valid_projb decode p in
+    let valid = valid_projb p in
     let expected =
       match expected_refs decode p.p_codepage p.p_refs with
       | None -> "-"
